@@ -72,9 +72,14 @@ def signature(prop: str, clause: str, witness: str) -> str:
 
 
 def load_known() -> dict:
-    if not KNOWN.exists():
-        return {"findings": [], "fixed": []}
-    return json.loads(KNOWN.read_text())
+    out = {"findings": [], "fixed": []}
+    files = [KNOWN] + sorted((ROOT / "known_findings.d").glob("*.json"))
+    for f in files:
+        if f.exists():
+            k = json.loads(f.read_text())
+            out["findings"] += k.get("findings", [])
+            out["fixed"] += k.get("fixed", [])
+    return out
 
 
 # ---------------------------------------------------------------------------
